@@ -522,17 +522,30 @@ def c13(sess):
     """Retry: tally <= count; the retried attempt decides no transition; re-offers carry the retry delay."""
     out = []
     prev = None
+    entries = {}
     stop = first_raw(sess)
     for i, (op, obs) in enumerate(sess.trace):
         if i >= stop:
             break
         st = obs["state"]["state"]
-        for k, r in enumerate(st["sequence"]):
-            rt = r.get("retry")
-            if rt and isinstance(rt.get("count"), int) and not isinstance(rt.get("count"), bool):
-                if rt["tally"] > max(rt["count"], 0):
-                    out.append({"what": "record %d of %s retried %d times with count %d" % (k, r["id"], rt["tally"], rt["count"]),
-                                "step": i})
+        # The bound is on executions: a record (one visit) enters `retrying` at most count times.  The
+        # engine's own tally is only required to count at least those entries; it may run ahead of them
+        # (an event the task machine ignores while the record is retrying is counted too, which costs the
+        # task retries but never adds an execution), so tally > count alone is not a violation.
+        if prev is not None:
+            pseq = prev["state"]["state"]["sequence"]
+            for k, r in enumerate(st["sequence"]):
+                was = pseq[k].get("status") if k < len(pseq) else None
+                if r.get("status") == "retrying" and was != "retrying":
+                    entries[k] = entries.get(k, 0) + 1
+                    rt = r.get("retry") or {}
+                    cnt = rt.get("count")
+                    if isinstance(cnt, int) and not isinstance(cnt, bool) and entries[k] > max(cnt, 0):
+                        out.append({"what": "record %d of %s retried %d times with count %d" % (k, r["id"], entries[k], cnt),
+                                    "step": i})
+                    if rt.get("tally", 0) < entries[k]:
+                        out.append({"what": "record %d of %s retried %d times but its tally is %r"
+                                            % (k, r["id"], entries[k], rt.get("tally")), "step": i})
         if prev is not None:
             pst = prev["state"]["state"]
             for k in range(min(len(pst["sequence"]), len(st["sequence"]))):
